@@ -2,10 +2,10 @@ SPECIFICATION Spec
 CONSTANTS
   Threads = {t1, t2}
   PerThread = 2
-  MaxIdx = 40000
+  MaxIdx = 10
   AtomicSlot = TRUE
-  Paths = {p1, p2, p3, p4}
-  OncePerPath = TRUE
+  Paths = {p1, p2}
+  OncePerPath = FALSE
   FirstOnly = TRUE
   WriterIsMover = TRUE
   MaxGen = 4
